@@ -172,3 +172,155 @@ func selftestDeterminism(args []string) {
 	}
 	fmt.Println("determinism self-test passed")
 }
+
+// selftestRace proves that serialising the emulator's goroutines does not blind
+// the race detector: a planted unsynchronised global touched at every yield
+// point must be reported in every run, the same global behind a mutex never.
+func selftestRace() {
+	bin := build(true)
+	scratch, err := os.MkdirTemp("", "vrace-")
+	if err != nil {
+		fatal2("%v", err)
+	}
+	defer os.RemoveAll(scratch)
+	raceLogBase = filepath.Join(scratch, "race")
+	ok := true
+	for _, mode := range []string{"race", "guarded"} {
+		outFile := filepath.Join(scratch, "st-"+mode+".jsonl")
+		from := uint64(1000003)
+		for part := 0; part < 20; part++ {
+			_, _ = runWorker(bin, map[string]string{"VS_MODE": "run", "VS_PROP": "C16", "VS_FROM": strconv.FormatUint(from, 10), "VS_N": strconv.Itoa(int(1000003 + 12 - from)),
+				"VS_TIER": "quick", "VS_OUT": outFile, "VS_PLANT_RACE": mode}, 10*time.Minute)
+			_, _, finished, resume := readRecords(outFile)
+			if finished || resume <= from {
+				break
+			}
+			from = resume
+		}
+		recs, _, _, _ := readRecords(outFile)
+		planted, other, clean := 0, 0, 0
+		for _, r := range recs {
+			switch {
+			case r.Viol == nil:
+				clean++
+			case strings.Contains(r.Viol.Msg, "plantedAccess"):
+				planted++
+			default:
+				other++
+			}
+		}
+		fmt.Printf("selftest-race mode=%s: %d runs, %d report the planted race, %d other reports, %d clean\n", mode, len(recs), planted, other, clean)
+		// the detector reports one pair of stacks once per process, so a later
+		// run of the same worker that only repeats known pairs stays silent
+		if mode == "race" && (planted == 0 || planted < len(recs)/2 || len(recs) == 0) {
+			ok = false
+		}
+		if mode == "guarded" && (planted != 0 || other != 0 || len(recs) == 0) {
+			ok = false
+		}
+	}
+	if !ok {
+		fmt.Println("race self-test FAILED")
+		os.Exit(2)
+	}
+	fmt.Println("race self-test passed")
+}
+
+// selftestHooks greps /repo for lock sites and goroutine bodies that the
+// simulator would not see: every Lock()/Unlock() on a sync.Mutex of the
+// emulator has its simBeforeLock/simAfterUnlock line next to it, every
+// goroutine body begins with simTaskBegin. An unhooked site is exit 2.
+func selftestHooks() {
+	repo := "/repo"
+	ents, err := os.ReadDir(repo)
+	if err != nil {
+		fatal2("%v", err)
+	}
+	var bad []string
+	nlock, ngo := 0, 0
+	for _, e := range ents {
+		n := e.Name()
+		if !strings.HasSuffix(n, ".go") || strings.HasSuffix(n, "_test.go") || strings.HasPrefix(n, "simhooks_") || n == "sim_inspect.go" ||
+			n == "redisTestClient.go" || n == "realTestClient.go" || n == "test-server-simple.go" {
+			continue
+		}
+		b, err := os.ReadFile(filepath.Join(repo, n))
+		if err != nil {
+			fatal2("%v", err)
+		}
+		lines := strings.Split(string(b), "\n")
+		prevCode := func(i int) string {
+			for j := i - 1; j >= 0; j-- {
+				if t := strings.TrimSpace(lines[j]); t != "" && !strings.HasPrefix(t, "//") {
+					return t
+				}
+			}
+			return ""
+		}
+		nextCode := func(i int) string {
+			for j := i + 1; j < len(lines); j++ {
+				if t := strings.TrimSpace(lines[j]); t != "" && !strings.HasPrefix(t, "//") {
+					return t
+				}
+			}
+			return ""
+		}
+		for i, ln := range lines {
+			t := strings.TrimSpace(ln)
+			if strings.HasPrefix(t, "//") {
+				continue
+			}
+			switch {
+			case strings.HasSuffix(t, ".Lock()") && !strings.HasPrefix(t, "defer"):
+				nlock++
+				if !strings.Contains(prevCode(i), "simBeforeLock(") {
+					bad = append(bad, fmt.Sprintf("%s:%d: %s  (no simBeforeLock before it)", n, i+1, t))
+				}
+			case strings.HasPrefix(t, "defer ") && strings.HasSuffix(t, ".Unlock()"):
+				if !strings.Contains(prevCode(i), "defer simAfterUnlock(") {
+					bad = append(bad, fmt.Sprintf("%s:%d: %s  (no defer simAfterUnlock before it)", n, i+1, t))
+				}
+			case strings.HasSuffix(t, ".Unlock()"):
+				if !strings.Contains(nextCode(i), "simAfterUnlock(") {
+					bad = append(bad, fmt.Sprintf("%s:%d: %s  (no simAfterUnlock after it)", n, i+1, t))
+				}
+			case strings.HasPrefix(t, "go func()") || (strings.HasPrefix(t, "go ") && strings.HasSuffix(t, ")")):
+				ngo++
+				// the body (or the named function) must call simTaskBegin
+				body := ""
+				if strings.HasPrefix(t, "go func()") {
+					for j := i + 1; j < len(lines) && j < i+8; j++ {
+						body += lines[j]
+					}
+				} else {
+					name := strings.TrimSuffix(strings.TrimPrefix(t, "go "), "()")
+					if k := strings.LastIndexByte(name, '.'); k >= 0 {
+						name = name[k+1:]
+					}
+					if k := strings.IndexByte(name, '('); k >= 0 {
+						name = name[:k]
+					}
+					for j, l2 := range lines {
+						if strings.HasPrefix(l2, "func ") && strings.Contains(l2, ") "+name+"(") || strings.HasPrefix(l2, "func "+name+"(") {
+							for q := j + 1; q < len(lines) && q < j+8; q++ {
+								body += lines[q]
+							}
+						}
+					}
+				}
+				if !strings.Contains(body, "simTaskBegin(") {
+					bad = append(bad, fmt.Sprintf("%s:%d: %s  (goroutine body does not start with simTaskBegin)", n, i+1, t))
+				}
+			}
+		}
+	}
+	fmt.Printf("selftest-hooks: %d Lock() sites and %d go statements examined, %d unhooked\n", nlock, ngo, len(bad))
+	for _, b := range bad {
+		fmt.Println("  " + b)
+	}
+	if len(bad) > 0 || nlock == 0 {
+		fmt.Println("hook self-test FAILED")
+		os.Exit(2)
+	}
+	fmt.Println("hook self-test passed")
+}
